@@ -301,4 +301,32 @@ def r7_options_stay(ctx):
         o["rule"] = "R7"
 
 
-RULES = [("R1", r1_confinement), ("R2", r2_only_adds), ("R3", r3_empty_dropped), ("R4", r4_expand), ("R5", r5_setters), ("R6", r6_trim_start_impl), ("R7", r7_options_stay)]
+def r8_end_name(ctx):
+    """trim_markup_names_in_closing_tags applies to every End event emit_end produces (matched, unchecked or
+    dangling-but-allowed alike): with the option on and a non-blank byte found from the right, the payload is the cut
+    ending at that byte; with the option off it is everything after the `/`."""
+    for cfg, F in ctx.facts.items():
+        b = ctx.body(F, "reader::state::ReaderState::emit_end", "R8")
+        if b is None:
+            continue
+        n = 0
+        for p in ctx.paths(b):
+            r = ret_of(p)
+            if ends(p) != "ret" or r is None or describe_ret(r, 1)[0][:2] != ("Ok", "End"):
+                continue
+            trim = decision_on(p, lambda t: is_self_field(strip_wrappers(t), "trim_markup_names_in_closing_tags") or (t[0] == "pl" and ends_with_fields(t, "trim_markup_names_in_closing_tags")))
+            found = [e for e in p if e[0] == "switch" and e[2][0] == "discr" and call_is(strip_wrappers(e[2][1]), "rposition", "rfind", "position")]
+            cut = bool(found) and found[0][3] == 1
+            scan = strip_wrappers(found[0][2][1]) if found else None
+            payload = r[3][0][3][0] if r[0] == "agg" and r[3] and r[3][0][0] == "agg" and r[3][0][3] else r
+            uses = scan is not None and has_subterm(payload, lambda s: s[0] == "call" and s[1] == scan[1])
+            ranged = has_subterm(payload, lambda s: s[0] == "agg" and s[2] in ("RangeTo", "RangeToInclusive", "Range"))
+            n += 1
+            if trim not in (None, 0) and cut:
+                ctx.ob("R8", "emit_end:End[trim,name found]", uses, "the End payload must be the name cut at the last non-blank byte on every exit", config=cfg)
+            elif trim == 0:
+                ctx.ob("R8", "emit_end:End[no trim]", not ranged, "with the option off nothing is cut from the end of the name", config=cfg)
+        ctx.floor("R8", "End exits of emit_end", n, 6, config=cfg)
+
+
+RULES = [("R1", r1_confinement), ("R2", r2_only_adds), ("R3", r3_empty_dropped), ("R4", r4_expand), ("R5", r5_setters), ("R6", r6_trim_start_impl), ("R7", r7_options_stay), ("R8", r8_end_name)]
